@@ -4,10 +4,12 @@ package c18
 
 import (
 	"bytes"
+	"errors"
 	"fmt"
 	"iter"
 	"slices"
 	"sort"
+	"sync"
 	"testing"
 
 	"pgregory.net/rapid"
@@ -38,6 +40,10 @@ type op struct {
 	Batch   []write // flush: one memtable worth of writes (later writes to a key win)
 	Arrive  int     // compact: number of flushes that arrive between computing and applying the change set
 	Batches [][]write
+	// compact: a storage read fault while the step runs. Fault > 0 selects the
+	// table (counted over the whole layout, level 0 first) whose reads fail after
+	// After successful ones; the fault is gone when the step has returned.
+	Fault, After int
 }
 type prog struct {
 	Levels     int
@@ -75,6 +81,10 @@ func gen(rt *rapid.T) prog {
 			o.Batch = genBatch(rt, p.NKeys)
 		case "compact":
 			o.Arrive = rapid.IntRange(0, 2).Draw(rt, "arrive")
+			if rapid.IntRange(0, 3).Draw(rt, "faulty") == 0 {
+				o.Fault = rapid.IntRange(1, 12).Draw(rt, "fault")
+				o.After = rapid.IntRange(0, 4).Draw(rt, "after")
+			}
 			for j := 0; j < o.Arrive; j++ {
 				o.Batches = append(o.Batches, genBatch(rt, p.NKeys))
 			}
@@ -82,6 +92,36 @@ func gen(rt *rapid.T) prog {
 		p.Ops = append(p.Ops, o)
 	}
 	return p
+}
+
+// faultFS is the memory file system with one switchable read fault.
+type faultFS struct {
+	storage.FileSystem
+	mu    sync.Mutex
+	name  string // file whose reads fail ("" = none)
+	after int    // successful reads left before the failure
+	hits  int    // reads that failed
+}
+
+type faultFile struct {
+	storage.File
+	fs *faultFS
+}
+
+func (f *faultFS) New(path string) storage.File  { return &faultFile{f.FileSystem.New(path), f} }
+func (f *faultFS) Open(path string) storage.File { return &faultFile{f.FileSystem.Open(path), f} }
+func (f *faultFile) ReadAt(b []byte, off int64) (int, error) {
+	f.fs.mu.Lock()
+	if f.fs.name != "" && f.fs.name == f.Name() {
+		if f.fs.after <= 0 {
+			f.fs.hits++
+			f.fs.mu.Unlock()
+			return 0, errors.New("injected storage read fault")
+		}
+		f.fs.after--
+	}
+	f.fs.mu.Unlock()
+	return f.File.ReadAt(b, off)
 }
 
 type world struct {
@@ -240,12 +280,12 @@ func (w *world) check(step int, what string) error {
 var _ iter.Seq[int]
 
 func exec(p prog, c *hx.Case) error {
-	fs := storage.NewMemoryFilesystem()
+	fs := &faultFS{FileSystem: storage.NewMemoryFilesystem()}
 	w := &world{p: p, keys: hx.AdversarialKeys[:p.NKeys], tw: sst.NewTableWriter(fs, 0), ll: sst.NewEmptyLevelList(p.Levels),
 		model: map[string]*ent{}, ever: map[string]bool{}}
 	comp := &sst.Compactor{TableWriter: w.tw, L0RunNumCompactionTrigger: p.Trigger, MaxSizeAmplificationPercent: p.Amp,
 		SmallestLevelSize: p.SmallLevel, LevelSizeMultiplier: 10, TargetTableSize: int64(p.Target)}
-	steps, concurrent, multi, middle := 0, 0, 0, 0
+	steps, concurrent, multi, middle, failedSteps, faultSurvived := 0, 0, 0, 0, 0, 0
 	note := func() {
 		counts := w.ll.TableCounts()
 		for lv, n := range counts {
@@ -259,7 +299,42 @@ func exec(p prog, c *hx.Case) error {
 	}
 	compactOnce := func(step int, o op) (bool, error) {
 		before := w.ll
-		cs, err := comp.Compact(before)
+		faulted := ""
+		if o.Fault > 0 {
+			var all []*sst.Table
+			for lv := 0; lv < p.Levels; lv++ {
+				all = append(all, tablesOf(before, lv)...)
+			}
+			if len(all) > 0 {
+				faulted = all[(o.Fault-1)%len(all)].Name()
+				fs.mu.Lock()
+				fs.name, fs.after, fs.hits = faulted, o.After, 0
+				fs.mu.Unlock()
+			}
+		}
+		cs, err := func() (cs *sst.ChangeSet, err error) {
+			defer func() {
+				if r := recover(); r != nil && faulted != "" {
+					err = fmt.Errorf("panic: %v", r) // a step that gives up on a read fault changes nothing
+				} else if r != nil {
+					panic(r)
+				}
+			}()
+			return comp.Compact(before)
+		}()
+		fs.mu.Lock()
+		hit := fs.hits > 0
+		fs.name = ""
+		fs.mu.Unlock()
+		if err != nil && hit {
+			// the step failed on the injected fault: nothing is applied, and the
+			// layout must read exactly as before
+			failedSteps++
+			return true, w.check(step, "after a compaction step that failed on a storage read fault")
+		}
+		if hit {
+			faultSurvived++
+		}
 		if err != nil {
 			return false, hx.Errf("step %d: Compact: %v", step, err)
 		}
@@ -303,6 +378,8 @@ func exec(p prog, c *hx.Case) error {
 		}
 	}
 	c.LabelIf(concurrent > 0, "concurrent-flush")
+	c.LabelIf(failedSteps > 0, "compaction-step-failed-on-read-fault")
+	c.LabelIf(faultSurvived > 0, "compaction-step-succeeded-despite-read-fault")
 	c.LabelIf(multi > 0, "multi-table-level")
 	c.LabelIf(middle > 0, "middle-level-populated")
 	if steps >= 2 && multi > 0 {
@@ -312,5 +389,5 @@ func exec(p prog, c *hx.Case) error {
 }
 
 func TestPropCompaction(t *testing.T) {
-	hx.Run(t, hx.Spec{Prop: "C18", Rule: "2..40 steps of: flush a batch of 1..6 puts/deletes over 4..16 keys as a level-0 table (as rotateMemtable does) | one real Compactor.Compact step whose change set is applied after 0..2 further flushes arrived | compact to a fixed point; levels 2..6, trigger 1..4, amplification 1..100000%, smallest-level size 1..1GiB, target table size 20..100000 B; after every step: levels>=1 sorted and non-overlapping, per key the sequence numbers strictly decrease in lookup order, Get of every key and five prefix scans equal the model; non-trivial = >=2 compaction steps and some level>=1 holding >=2 tables"}, gen, exec)
+	hx.Run(t, hx.Spec{Prop: "C18", Rule: "2..40 steps of: flush a batch of 1..6 puts/deletes over 4..16 keys as a level-0 table (as rotateMemtable does) | one real Compactor.Compact step whose change set is applied after 0..2 further flushes arrived, a quarter of them with a storage read fault in one table of the layout after 0..4 successful reads (a step that returns an error applies nothing; one that returns a change set is applied and checked like any other) | compact to a fixed point; levels 2..6, trigger 1..4, amplification 1..100000%, smallest-level size 1..1GiB, target table size 20..100000 B; after every step: levels>=1 sorted and non-overlapping, per key the sequence numbers strictly decrease in lookup order, Get of every key and five prefix scans equal the model; non-trivial = >=2 compaction steps and some level>=1 holding >=2 tables"}, gen, exec)
 }
